@@ -108,7 +108,7 @@ static void shape(void)
 	uint8_t depth[NN], ord[NN];
 	for (i = 0; i < NN; i++) {
 		size_t nx = V_IN_RANGE("next", 0, NIL), pv = V_IN_RANGE("prev", 0, NIL), pa = V_IN_RANGE("parent", 0, NIL), ch = V_IN_RANGE("children", 0, NIL);
-		memset(&nd[i], 0, sizeof(nd[i]));
+		nd[i]._meta = 0;
 		nd[i].next = P(nx); nd[i].prev = P(pv); nd[i].parent = P(pa); nd[i].children = P(ch);
 		depth[i] = V_IN_U8("depth") & 7; ord[i] = V_IN_U8("ord") & 7;
 		mpt_identifier_init(&nd[i].ident, sizeof(nd[i].ident));
@@ -122,11 +122,15 @@ static void shape(void)
 }
 static void names(void)
 {
+	/* inline text names "a", "b", "" written directly (representation of
+	 * mpt_identifier_set for short names: _len = strlen + 1, UTF8 charset) */
 	size_t i;
-	static const char *nm[3] = { "a", "b", "" };
 	for (i = 0; i < NN; i++) {
 		size_t k = V_IN_RANGE("name", 0, 2);
-		V_ASSUME(mpt_identifier_set(&nd[i].ident, nm[k], -1) != 0);
+		nd[i].ident._charset = MPT_CHARSET(UTF8);
+		nd[i].ident._len = (k == 2) ? 1 : 2;
+		nd[i].ident._val[0] = (k == 0) ? 'a' : (k == 1) ? 'b' : 0;
+		nd[i].ident._val[1] = 0;
 	}
 }
 
@@ -160,6 +164,9 @@ void harness(void)
 	{ const MPT_STRUCT(node) *p = na; size_t k; for (k = 0; k < NN && p; k++) { V_ASSUME(p != nb); p = p->parent; } }
 # if OP == OP_NODE_ADD
 	names();
+	/* by-name insertion searches forward from its first argument: the documented
+	 * argument is the first node of the list */
+	V_ASSUME(!na->prev);
 	mpt_node_add(na, pos, nb);
 # else
 	mpt_gnode_add(na, pos, nb);
@@ -257,6 +264,5 @@ void harness(void)
 		if (nd[i].next) V_ASSERT(nd[i].next != nd[j].next, "no node reachable as successor from two nodes");
 	}
 	}
-	{ size_t i; for (i = 0; i < NN; i++) mpt_identifier_set(&nd[i].ident, 0, 0); }
 	V_WITNESS_END();
 }
